@@ -74,12 +74,15 @@ enum VS {
     Real(f64),
     Str(String),
     Table(Vec<(VS, VS)>),
+    /// the same table object as one built earlier (shared, not cyclic)
+    Ref(usize),
 }
 
 fn gen_vs(rng: &mut Prng, depth: usize) -> VS {
     if depth == 0 || rng.chance(1, 2) {
-        return match rng.below(5) {
+        return match rng.below(6) {
             0 => VS::Nil,
+            5 => VS::Ref(rng.below(1000)),
             1 => VS::Int(*rng.pick(&[0i64, -1, 7, i64::MAX, i64::MIN, 1 << 53])),
             2 => VS::Real(*rng.pick(&[0.5f64, -1e300, 1e-300, 3.0, 0.1, 123456.789])),
             _ => VS::Str(rng.pick(&["", "a", "héllo ✓", "k", "long string with spaces"]).to_string()),
@@ -99,19 +102,34 @@ fn gen_vs(rng: &mut Prng, depth: usize) -> VS {
     VS::Table(entries)
 }
 
-fn build_vs(vm: &mut Vm<crate::vmrun::Aux>, v: &VS) -> Value {
+/// `pool` holds the finished tables with their expanded size (a shared table counts once per reference when the value
+/// is written out as a tree); `total` is the expanded size so far - sharing stops before the tree form explodes
+fn build_vs(vm: &mut Vm<crate::vmrun::Aux>, v: &VS, pool: &mut Vec<(Value, usize)>, total: &mut usize) -> Value {
+    *total += 1;
     match v {
+        VS::Ref(n) => {
+            let small: Vec<&(Value, usize)> = pool.iter().filter(|(_, sz)| *sz <= 60 && *total + *sz <= 3000).collect();
+            if small.is_empty() {
+                Value::Nil
+            } else {
+                let (v, sz) = small[*n % small.len()];
+                *total += *sz;
+                *v
+            }
+        }
         VS::Nil => Value::Nil,
         VS::Int(i) => Value::Integer(*i),
         VS::Real(f) => Value::Real(*f),
         VS::Str(s) => Value::Object(vm.init_string(s).unwrap().into_inner()),
         VS::Table(es) => {
+            let before = *total;
             let t = vm.init_table().unwrap().into_inner();
             for (k, x) in es {
-                let kv = build_vs(vm, k);
-                let xv = build_vs(vm, x);
+                let kv = build_vs(vm, k, pool, total);
+                let xv = build_vs(vm, x, pool, total);
                 unsafe { (*t.as_ptr()).as_table_mut().unwrap().insert(kv, xv).unwrap() };
             }
+            pool.push((Value::Object(t), *total - before + 1));
             Value::Object(t)
         }
     }
@@ -241,7 +259,12 @@ impl Engine for SerdeEngine {
         let spec = gen_vs(&mut rng, 4);
         let cfg = VmConfig::default();
         let mut vm1 = new_vm(&cfg, &[]);
-        let v = build_vs(&mut vm1, &spec);
+        let mut pool = Vec::new();
+        let mut total = 0usize;
+        let v = build_vs(&mut vm1, &spec, &mut pool, &mut total);
+        if pool.len() > 1 {
+            obs.inc("values_with_tables");
+        }
         let original: DVal = deep(v);
         let owned = match OwnedValue::try_from(v) {
             Ok(o) => o,
@@ -272,6 +295,40 @@ impl Engine for SerdeEngine {
                 return viol(&format!("value:{fmt}:differs"), format!("original {} came back as {}", original.short(), copy.short()));
             }
             obs.inc(&format!("value_roundtrips:{fmt}"));
+        }
+        // ---------- D. insert_value while the collector runs at every allocation (the value is built by the library
+        //               itself, nothing of it is reachable from a root until it is returned)
+        {
+            use cao_lang::verif_hooks::GcPlan;
+            let cfg = VmConfig { max_instr: 10_000, suppress_gc: true, memory_limit: Some(64 << 20), stack_size: None };
+            let mut vm3 = new_vm(&cfg, &[]);
+            {
+                let a = vm3.runtime_data.verif_allocator();
+                // (a collection costs time linear in the heap: large values get sparser schedules)
+                *a.verif.plan.borrow_mut() = if total > 150 {
+                    GcPlan::EveryNth((total / 60) as u64 + case.value_seed % 3)
+                } else if case.value_seed % 3 == 0 {
+                    GcPlan::EveryNth(2)
+                } else {
+                    GcPlan::Every
+                };
+                a.verif.quarantine_on.set(true);
+            }
+            match vm3.insert_value(&owned) {
+                Err(e) => return viol("value:insert-under-gc", format!("insert_value failed while collections were forced: {e}")),
+                Ok(v3) => {
+                    // the host roots the result at once
+                    let _ = vm3.stack_push(v3);
+                    if let Err(f) = crate::audit::audit(&vm3.runtime_data, true, true) {
+                        return Verdict::violation(
+                            format!("C11:insert_value:gc:{}:{}", f.invariant, f.holder.split(' ').next().unwrap_or("?")),
+                            format!("a collection during Vm::insert_value swept part of the value being built: {}", f.detail),
+                        );
+                    }
+                    obs.add("collections_during_insert_value", vm3.runtime_data.verif.gc_count);
+                    obs.inc("insert_value_under_forced_gc");
+                }
+            }
         }
         obs.nontrivial = true;
         Verdict::Ok
